@@ -22,6 +22,7 @@ import (
 	"gitlab.com/aquachain/aquachain/consensus/aquahash/ethashdag"
 	"gitlab.com/aquachain/aquachain/core/types"
 	"gitlab.com/aquachain/aquachain/crypto"
+	"gitlab.com/aquachain/aquachain/opt/miner"
 	"gitlab.com/aquachain/aquachain/params"
 	"gitlab.com/aquachain/aquachain/rlp"
 	"gitlab.com/aquachain/aquachain/verifharness/vh"
@@ -29,13 +30,13 @@ import (
 
 type cfgOnly struct{ cfg *params.ChainConfig }
 
-func (f cfgOnly) Config() *params.ChainConfig                               { return f.cfg }
-func (f cfgOnly) GetContext() context.Context                               { return context.Background() }
-func (f cfgOnly) CurrentHeader() *types.Header                              { return nil }
-func (f cfgOnly) GetHeader(hash common.Hash, number uint64) *types.Header   { return nil }
-func (f cfgOnly) GetHeaderByNumber(number uint64) *types.Header             { return nil }
-func (f cfgOnly) GetHeaderByHash(hash common.Hash) *types.Header            { return nil }
-func (f cfgOnly) GetBlock(hash common.Hash, number uint64) *types.Block     { return nil }
+func (f cfgOnly) Config() *params.ChainConfig                             { return f.cfg }
+func (f cfgOnly) GetContext() context.Context                             { return context.Background() }
+func (f cfgOnly) CurrentHeader() *types.Header                            { return nil }
+func (f cfgOnly) GetHeader(hash common.Hash, number uint64) *types.Header { return nil }
+func (f cfgOnly) GetHeaderByNumber(number uint64) *types.Header           { return nil }
+func (f cfgOnly) GetHeaderByHash(hash common.Hash) *types.Header          { return nil }
+func (f cfgOnly) GetBlock(hash common.Hash, number uint64) *types.Block   { return nil }
 
 var _ consensus.ChainReader = cfgOnly{}
 
@@ -592,6 +593,119 @@ func (e *env) sealer() {
 	e.tester.SetThreads(1)
 }
 
+// minerPaths: the two ways a header reaches Seal / VerifySeal from the node's own miner, driven through the real
+// agents of opt/miner with a block assembled the way worker.commitNewWork + Engine.Finalize assemble it
+// (header.Version = GetBlockVersion(number), types.NewBlock copies it):
+//
+//	local  : CpuAgent.mine -> engine.Seal(chain, work.Block)            -> result must pass VerifySeal
+//	remote : RemoteAgent.GetWork (HashNoNonce of work.Block) -> external search -> RemoteAgent.SubmitWork -> VerifySeal
+//
+// Directed at the heights where the seal-free hash depends on the version (version 3) and around them.
+func (e *env) minerPaths() {
+	c := e.c
+	type sc struct {
+		name string
+		cfg  *params.ChainConfig
+		nums []int64
+	}
+	for _, s := range []sc{
+		{"testnet2", params.Testnet2ChainConfig, []int64{7, 8, 9, 18, 19, 20}},
+		{"testnet", params.TestnetChainConfig, []int64{4, 5, 649, 650, 651}},
+		{"mainnet", params.MainnetChainConfig, []int64{22799, 22800}},
+	} {
+		for _, num := range s.nums {
+			chain := cfgOnly{s.cfg}
+			v := int(s.cfg.GetBlockVersion(big.NewInt(num)))
+			// worker.commitNewWork
+			header := &types.Header{Number: big.NewInt(num), GasLimit: 4712388, Extra: []byte("verif"), Time: big.NewInt(1700000000 + num),
+				Version: s.cfg.GetBlockVersion(big.NewInt(num))}
+			copy(header.ParentHash[:], c.Rng.Bytes(32))
+			copy(header.Coinbase[:], c.Rng.Bytes(20))
+			header.Difficulty = big.NewInt(int64(2 + c.Rng.Intn(6))) // Prepare would put the scheduled difficulty; kept minable here
+			// Engine.Finalize
+			header.SetVersion(byte(s.cfg.GetBlockVersion(header.Number)))
+			blk := types.NewBlock(header, nil, nil, nil)
+			if int(blk.Version()) != v {
+				c.Violate(fmt.Sprintf("miner-work-unversioned/%s/%d", s.name, num), "the block assembled for sealing does not carry the version of its height", map[string]string{"config": s.name, "number": fmt.Sprint(num)})
+			}
+			eng := e.engineFor(v)
+			eng.SetThreads(2)
+			// --- local agent
+			ret := make(chan *miner.Result, 1)
+			cpu := miner.NewCpuAgent(chain, eng)
+			cpu.SetReturnCh(ret)
+			cpu.Start()
+			cpu.Work() <- &miner.Work{Block: blk}
+			var res *miner.Result
+			select {
+			case res = <-ret:
+			case <-time.After(30 * time.Second):
+				c.Fatal("CpuAgent did not seal within 30 s")
+			}
+			cpu.Stop()
+			sealed := res.Block.Header()
+			verr := eng.VerifySeal(chain, sealed)
+			key := ""
+			if verr == nil {
+				key = "cpu/" + sealed.Hash().Hex()
+			}
+			c.Eval(fmt.Sprintf("miner-path/cpu-agent/%s/v%d", s.name, v), key)
+			if verr != nil || int(sealed.Version) != v {
+				c.Violate("miner-cpu-agent-seal-rejected/"+shTok(sealed), "a block sealed through CpuAgent/engine.Seal does not pass VerifySeal", map[string]string{"config": s.name, "sealed": shTok(sealed), "verify": sealClass(verr)})
+			}
+			if v < 2 {
+				continue // the external ethash search needs the DAG; the local path above covers version 1
+			}
+			// --- remote agent (getWork / submitWork)
+			ret2 := make(chan *miner.Result, 1)
+			ra := miner.NewRemoteAgent(chain, eng)
+			ra.SetReturnCh(ret2)
+			ra.Start()
+			ra.Work() <- &miner.Work{Block: blk}
+			var work [3]string
+			var err error
+			for i := 0; i < 400; i++ {
+				if work, err = ra.GetWork(); err == nil {
+					break
+				}
+				time.Sleep(5 * time.Millisecond)
+			}
+			if err != nil {
+				c.Fatal("RemoteAgent.GetWork: %v", err)
+			}
+			hash := common.HexToHash(work[0])
+			target := new(big.Int).SetBytes(common.HexToHash(work[2]).Bytes())
+			accepted := false
+			for nonce := c.Rng.Uint64(); ; nonce++ {
+				r := crypto.VersionHash(byte(v), seedOf(hash[:], nonce))
+				if new(big.Int).SetBytes(r).Cmp(target) <= 0 {
+					accepted = ra.SubmitWork(types.EncodeNonce(nonce), common.Hash{}, hash)
+					break
+				}
+			}
+			ra.Stop()
+			key = ""
+			if accepted {
+				key = "remote/" + work[0]
+			}
+			c.Eval(fmt.Sprintf("miner-path/remote-agent/%s/v%d", s.name, v), key)
+			if !accepted {
+				c.Violate(fmt.Sprintf("miner-remote-agent-solution-rejected/%s/%d", s.name, num), "a nonce meeting the getWork target for the getWork hash is rejected by SubmitWork (VerifySeal)", map[string]string{"config": s.name, "number": fmt.Sprint(num), "work": strings.Join(work[:], ",")})
+			} else {
+				select {
+				case r2 := <-ret2:
+					if r2.Block.Nonce() == 0 && r2.Block.Version() == 0 {
+						c.Note("remote result without version")
+					}
+				default:
+				}
+			}
+		}
+	}
+	e.normal.SetThreads(1)
+	e.tester.SetThreads(1)
+}
+
 func main() {
 	c := vh.Init("C14")
 	log.Root().SetHandler(log.DiscardHandler())
@@ -605,6 +719,7 @@ func main() {
 	e.seals()
 	e.boundaries()
 	e.sealer()
+	e.minerPaths()
 	c.Assume("ethash (version 1) is exercised in ModeTest (32 KiB dataset); hashimotoLight = hashimotoFull is taken as a property of the primitive")
 	c.Assume("argon2id / hashimoto outputs enter the model as oracle values recorded from the implementation; Keccak-256 and the RLP pre-images are computed by the model")
 	c.Finish()
